@@ -40,7 +40,7 @@ for pid,(lvl,text,ref,tech) in sorted(claimed.items()):
     })
 m = {
  'version': 1,
- 'setup_cmd': '/venv/bin/python -m compileall -q /verif/dst && /venv/bin/python /verif/dst/cli.py selftest determinism 16 C05 C06',
+ 'setup_cmd': '/venv/bin/python -m compileall -q /verif/dst && /venv/bin/python /verif/dst/cli.py selftest determinism 8',
  'hooks': {'guard': 'DDSMT_VERIF', 'enable': 'no hook in /repo is needed: every seam is a module attribute rebound by the launcher in /verif/dst (DESIGN.md 1)', 'baseline_off_cmd': 'cd /repo && /venv/bin/python -m pytest -ra -q -p no:cacheprovider --timeout=900', 'source_commits': [], 'add_only': True},
  'engines': [{'name': 'dst', 'path': '/verif/dst', 'serves_properties': sorted(claimed), 'kind_free_text': 'deterministic simulation with fault injection: seeded baton scheduler over real threads, simulated pool/manager/subprocess/clock/fork, crash-point enumeration, history oracles, choice-list replay and minimisation'}],
  'checks': checks,
